@@ -154,6 +154,34 @@ def gen_relaxing_case(rng, big=False):
     return case
 
 
+def gen_zerodiv_case(rng):
+    """FAILING ROWS THAT RAISE AT t = 0: a rate law `x / k` with the scanned `k` being 0 in some rows.  The scan workers
+    catch ZeroDivisionError to turn such a row into a NaN placeholder (`except ZeroDivisionError: res = Result(...)`);
+    the expression language of the Lean model has no division, so this stratum has no model side (oracle only)."""
+    n = rng.randint(1, 2)
+    vars_ = [[f"x{i}", {"v": rng.choice(VALS)}] for i in range(n)]
+    pars = [["kin", {"v": rng.choice(["1", "2", "1/2"])}], ["km", {"v": rng.choice(["1", "2", "1/2"])}]]
+    rxns = [["r_in", {"args": ["kin"], "e": ["a", 0], "st": [["x0", {"c": "1"}]]}],
+            ["r_out", {"args": [f"x{n - 1}", "km"], "e": ["a", 0], "den": ["a", 1], "st": [[f"x{n - 1}", {"c": "-1"}]]}]]
+    if n == 2:
+        rxns.append(["r_01", {"args": ["x0"], "e": ["*", ["c", "1/2"], ["a", 0]], "st": [["x0", {"c": "-1"}], ["x1", {"c": "1"}]]}])
+    content = {"vars": vars_, "pars": pars, "derived": [], "rxns": rxns, "surs": [], "readouts": []}
+    kind = rng.choice(["ss", "tc", "proto", "ptc"])
+    cols = ["km"] + (["x0"] if rng.random() < 0.4 else [])
+    nrows = rng.choice([1, 2, 3, 4])
+    zero = sorted(rng.sample(range(nrows), rng.randint(1, max(1, nrows // 2))))
+    rows = [[("0" if (c == "km" and i in zero) else rng.choice(["1", "2", "1/2"])) for c in cols] for i in range(nrows)]
+    case = {"content": content, "y0": None, "cols": cols, "rows": [[l, r] for l, r in zip(gen_labels(rng, nrows, kind == "ss"), rows)],
+            "kind": kind, "fail_rows": [], "order": [], "zerodiv_rows": zero,
+            "cfg": {"nss": 3, "h": "1/4", "fail": []} if rng.random() < 0.7 else None}
+    if kind in ("tc", "ptc"):
+        case["tps"] = rng.choice([["0", "1/2", "1"], ["1/4", "1/2"], ["1/2", "1", "3/2"]])
+    if kind in ("proto", "ptc"):
+        case["proto"] = [["1/2", [["kin", "1"]]], ["1", [["kin", "2"]]]][: rng.randint(1, 2)]
+        case["steps"] = rng.choice([1, 2, 3])
+    return case
+
+
 def gen_case(rng, tier_thorough=False, kind=None, big=False):
     if kind is None and rng.random() < 0.22:
         return gen_relaxing_case(rng, big)
@@ -292,6 +320,8 @@ def euler_steps(case):
 def finalize(case):
     """turn fail_rows into the integrator's fail keys; False if the case leaves the exact range or the
     exact rational Euler iteration of the Lean model would blow up (numerator size grows like degree^steps)"""
+    if case.get("zerodiv_rows") is not None:
+        return True  # linear, no injected failures: nothing to prepare
     if case["cfg"] is None:
         # shipped integrator: linear models only (a polynomial rate law can blow up in finite time and
         # LSODA then crawls forever)
@@ -541,7 +571,13 @@ def run_oracle(case):
         kind = case["kind"]
         per_row = []
         for i in range(len(case["rows"])):
-            m, sim = _independent(case, i, case["cfg"])
+            try:
+                m, sim = _independent(case, i, case["cfg"])
+            except ZeroDivisionError:
+                # the exception class the scan workers turn into a failed result (`except ZeroDivisionError`): a
+                # FAILING ROW, to be shown as a NaN block.  This model cannot even name its columns (every query
+                # re-evaluates the rates): take them from the model as declared
+                m, sim = L.build_model(case["content"]), None
             varnames = set(m.get_variable_names())
             if sim is None:
                 # the independent run itself reports failure (integration failure / no steady state):
@@ -709,6 +745,10 @@ def pool():
 
 def classify(case, mode, R, S):
     """which listed finding (if any) an R != S on this case can belong to"""
+    if case.get("zerodiv_rows") and R == {"err": ["ZeroDivisionError"]} and "res" in S:
+        # F-C09-3: a row that raises ZeroDivisionError at t = 0 takes the whole scan down (the placeholder itself
+        # cannot be built: Simulation.default asks the model for its parameter values, which evaluates the rates)
+        return "F-C09-3"
     if "res" not in R or "res" not in S or case["kind"] == "mcscan":
         return None
     if R.get("caller") != S.get("caller"):
@@ -737,6 +777,9 @@ def shape(case):
     c = case["content"]
     if case["kind"] == "mcscan":
         return f"mcscan-rows{len(case['rows'])}x{len(case['inner']['rows'])}-{'euler' if case['cfg'] else 'lsoda'}"
+    if case.get("zerodiv_rows") is not None:
+        return (f"zerodiv-{case['kind']}-rows{len(case['rows'])}-raising{len(case['zerodiv_rows'])}-"
+                f"{'euler' if case['cfg'] else 'lsoda'}")
     ia = sum(1 for _, v in c["pars"] if "ia" in v)
     vs = {k for k, _ in c["vars"]}
     scan_var = any(col in vs for col in case["cols"])
@@ -778,7 +821,8 @@ def evaluate(ctx, cases_modes):
     reqs, where = [], []
     for ci, ((case, modes), (S, Rs)) in enumerate(zip(jobs, outs)):
         for mi, mode in enumerate(modes):
-            if ctx.driver_ok and case["cfg"] is not None and "res" in S and case["kind"] != "mcscan":
+            if ctx.driver_ok and case["cfg"] is not None and "res" in S and case["kind"] != "mcscan" \
+                    and case.get("zerodiv_rows") is None:
                 reqs.append(model_request(case, mode, rng_seed=ci * 31 + mi))
                 where.append((ci, mi))
     answers = driver.call_batch(reqs, timeout=300.0) if reqs else []
@@ -818,7 +862,10 @@ def run(ctx):
     while len(cases) < n and tries < 20 * n:
         tries += 1
         big = (len(cases) % 15 == 14)
-        case = gen_mcscan(rng) if len(cases) % 9 == 8 else gen_case(rng, thorough, big=big)
+        if len(cases) % 11 == 10:
+            case = gen_zerodiv_case(rng)
+        else:
+            case = gen_mcscan(rng) if len(cases) % 9 == 8 else gen_case(rng, thorough, big=big)
         if finalize(case):
             cases.append(case)
         else:
@@ -865,6 +912,13 @@ def corpus():
         c = {"content": plain, "y0": None, "cols": ["x"], "rows": [[0, ["1"]], [1, ["2"]]], "kind": kind,
              "cfg": {"nss": 2, "h": "1/4", "fail": []}, "fail_rows": [1], "order": [], **extra}
         out.append(c)
+    # F-C09-3: a row whose rate divides by zero at t = 0
+    zd = {"vars": [["x0", {"v": "1"}]], "pars": [["kin", {"v": "1"}], ["km", {"v": "1"}]], "derived": [], "surs": [], "readouts": [],
+          "rxns": [["r_in", {"args": ["kin"], "e": ["a", 0], "st": [["x0", {"c": "1"}]]}],
+                   ["r_out", {"args": ["x0", "km"], "e": ["a", 0], "den": ["a", 1], "st": [["x0", {"c": "-1"}]]}]]}
+    for kind, extra in (("ss", {}), ("tc", {"tps": ["0", "1/2", "1"]})):
+        out.append({"content": zd, "y0": None, "cols": ["km"], "rows": [[0, ["1"]], [1, ["0"]], [2, ["2"]]], "kind": kind,
+                    "cfg": {"nss": 3, "h": "1/4", "fail": []}, "fail_rows": [], "order": [], "zerodiv_rows": [1], **extra})
     for c in out:
         assert finalize(c)
     return out
